@@ -30,6 +30,16 @@ var Properties = map[string]func(*Ctx){
 	"C10": C10,
 	"C03": C03,
 	"C01": C01,
+	"C11": C11,
+}
+
+func C11(c *Ctx) {
+	R13EventLog(c)
+	R13Deadline(c)
+	R3LockPair(c, func(fn, lock string) bool {
+		return strings.Contains(lock, "Mutex") && (strings.Contains(fn, "server.") || strings.Contains(fn, "service."))
+	}, 3)
+	r10FanOut(c, "R10-authgate")
 }
 
 func C01(c *Ctx) {
